@@ -656,6 +656,96 @@ def gen_perm_decls(rng, tier):
         d.default_arg = None
         decls.append(d)
         n += 1
+    for mn, mx in ((5, 2), (4, 1), (9, 3), (3, 3), (2, 6)):
+        for order in (("min", "max"), ("max", "min"), ("not_empty", "min", "max"), ("max", "not_empty", "min")):
+            env = [("MN", "usize", mn, "const MN: usize = %d;" % mn), ("MX", "usize", mx, "const MX: usize = %d;" % mx)]
+            items = []
+            for s in order:
+                if s == "min":
+                    items.append([tid("len_char_min"), EQ, tx(k("MN"))])
+                elif s == "max":
+                    items.append([tid("len_char_max"), EQ, tx(k("MX"))])
+                else:
+                    items.append([tid("not_empty")])
+            d = Decl("ps%d" % n, "String", attr([block("validate", items), derive_block(["Debug", "Clone", "PartialEq"])]),
+                     env=env, tags={"perm", "str"})
+            d.bounds = [mn, mx]
+            d.default_arg = None
+            decls.append(d)
+            n += 1
+    return decls
+
+
+def gen_zero_bound_decls():
+    """every integer and float type x every bound kind with the literal 0 / 0.0 / -0.0 as the
+    bound (a bound the type's own limits seem to make redundant), alone and before a predicate"""
+    decls = []
+    n = 0
+    for ty in list(INT_TYPES):
+        for kind in LOWER + UPPER:
+            for with_pred in (False, True):
+                items = [[tid(kind), EQ, tx(lit("0"))]]
+                if with_pred:
+                    items.append([tid("predicate"), EQ, tfn(0, "p", "p")])
+                d = Decl("zb%d" % n, ty, attr([block("validate", items), derive_block(["Debug", "Clone", "PartialEq", "TryFrom", "FromStr", "Display"])]),
+                         tags={"guard", "int", "zero_bound"})
+                d.bounds = [0]
+                d.default_arg = None
+                decls.append(d)
+                n += 1
+    for ty in FLOAT_TYPES:
+        for kind in LOWER + UPPER:
+            for zt in ("0.0", "-0.0"):
+                d = Decl("zb%d" % n, ty, attr([block("validate", [[tid(kind), EQ, tx(spell_float(ty, zt, "lit", [], "b"))]]),
+                                               derive_block(["Debug", "Clone", "PartialEq", "TryFrom", "FromStr", "Display"])]),
+                         tags={"guard", "float", "zero_bound"})
+                d.bounds = [fbits(zt, FLOAT_TYPES[ty])]
+                d.default_arg = None
+                decls.append(d)
+                n += 1
+    return decls
+
+
+def gen_default_edge_decls():
+    """Default with a literal default sitting exactly on / next to a literal bound, no sanitizers:
+    default() must panic exactly when the constructor refuses the same value"""
+    decls = []
+    n = 0
+    for ty, b in (("i32", 100), ("u8", 10), ("i64", -5), ("u16", 0)):
+        for kind in LOWER + UPPER:
+            for dv in (b - 1, b, b + 1):
+                if not (ity_min(ty) <= dv <= ity_max(ty)):
+                    continue
+                d = Decl("de%d" % n, ty, attr([block("validate", [[tid(kind), EQ, tx(lit_int(b))]]), [tid("default"), EQ, tx(lit_int(dv))],
+                                               derive_block(["Debug", "Clone", "PartialEq", "Default", "TryFrom"])]),
+                         tags={"guard", "int", "default_edge"})
+                d.bounds = [b]
+                d.default_arg = ("i", dv)
+                decls.append(d)
+                n += 1
+    for ty in ("f32", "f64"):
+        is64 = FLOAT_TYPES[ty]
+        for kind in LOWER + UPPER:
+            for dt in ("2.5", "2.75", "2.25"):
+                d = Decl("de%d" % n, ty, attr([block("validate", [[tid(kind), EQ, tx(spell_float(ty, "2.5", "lit", [], "b"))]]),
+                                               [tid("default"), EQ, tx(spell_float(ty, dt, "lit", [], "d"))],
+                                               derive_block(["Debug", "Clone", "PartialEq", "Default", "TryFrom"])]),
+                         tags={"guard", "float", "default_edge"})
+                d.bounds = [fbits("2.5", is64)]
+                d.default_arg = ("f", fbits(dt, is64))
+                decls.append(d)
+                n += 1
+    for mn, dv in ((2, "a"), (2, "ab"), (2, "abc")):
+        d = Decl("de%d" % n, "String", attr([block("validate", [[tid("len_char_min"), EQ, tx(lit(str(mn)))]]), [tid("default"), EQ, tx(estr(dv))],
+                                             derive_block(["Debug", "Clone", "PartialEq", "Default", "TryFrom"])]), tags={"guard", "str", "default_edge"})
+        d.default_arg = ("s", dv)
+        decls.append(d)
+        n += 1
+        d = Decl("de%d" % n, "String", attr([block("validate", [[tid("len_char_max"), EQ, tx(lit(str(mn)))]]), [tid("default"), EQ, tx(estr(dv))],
+                                             derive_block(["Debug", "Clone", "PartialEq", "Default", "TryFrom"])]), tags={"guard", "str", "default_edge"})
+        d.default_arg = ("s", dv)
+        decls.append(d)
+        n += 1
     return decls
 
 
@@ -724,6 +814,32 @@ def gen_arb_ints(rng, tier, start=0):
             d.default_arg = None
             decls.append(d)
         n += 1
+    # hand-picked shapes: user constants named like locals an expansion might introduce, bound
+    # expressions of untyped literals whose value depends on the inner type, custom validation
+    def extra(ty, items, env, bounds, custom=False):
+        blocks = [block("validate", items), derive_block(["Debug", "Arbitrary"])]
+        d = Decl("ai%d" % (start + len(decls)), ty, attr(blocks), env=env, tags={"arb", "int"} | ({"arb_custom"} if custom else set()))
+        d.bounds = bounds
+        d.sanitized = False
+        d.has_san = False
+        d.default_arg = None
+        decls.append(d)
+    for ty, cname, cval, lk, lo_e, uk, hi_e, b in (
+            ("u16", "MIN", 512, "greater_or_equal", lit("100"), "less", binop("mul", k("MIN"), lit("2")), [100, 1024]),
+            ("u16", "MAX", 40, "greater", binop("add", k("MAX"), lit("2")), "less_or_equal", lit("300"), [42, 300]),
+            ("i32", "MIN", -7, "greater_or_equal", k("MIN"), "less", binop("sub", lit_int(20), k("MIN")), [-7, 27]),
+            ("u8", "RANGE", 9, "greater", k("RANGE"), "less", binop("mul", k("RANGE"), lit("3")), [9, 27]),
+            ("i64", "DELTA", 3, "greater_or_equal", neg(k("DELTA")), "less_or_equal", k("DELTA"), [-3, 3]),
+            ("u32", "LOWER", 5, "greater", k("LOWER"), "less", binop("add", k("LOWER"), lit("4")), [5, 9])):
+        env = [(cname, ty, cval, "const %s: %s = %d;" % (cname, ty, cval))]
+        extra(ty, [[tid(lk), EQ, tx(lo_e)], [tid(uk), EQ, tx(hi_e)]], env, b)
+    for ty, kind, kk in (("u16", "greater", 4), ("u8", "less", 1), ("u32", "greater_or_equal", 20), ("u64", "less_or_equal", 60), ("usize", "greater", 50), ("u128", "less", 120)):
+        signed, bits = INT_TYPES[ty]
+        v = ((1 << bits) - 1) >> kk
+        e = binop("shr", bnot(lit("0")), lit(str(kk)))
+        extra(ty, [[tid(kind), EQ, tx(e if kk % 2 == 0 else par(e))]], [], [v, v])
+    for ty in ("i32", "u8"):
+        extra(ty, [[tid("with"), EQ, tfn(0, "p", "c")], [tid("error"), EQ, tpath("CErr")]], [], [0, 0], custom=True)
     return decls
 
 
@@ -929,6 +1045,29 @@ def gen_msg_decls(rng, tier):
                 d.default_arg = None
                 decls.append(d)
                 n += 1
+    # numeric: the sentence of one bound next to a lax bound of the other side, every kind pairing
+    n = 1000
+    for ty, bsub, far_lo, far_hi in (("i32", 7, -100000, 100000), ("u8", 9, 0, 250), ("f64", "7.5", "-1e30", "1e30"), ("f32", "-0.0", "-1e30", "1e30")):
+        flt = ty in FLOAT_TYPES
+        mk = (lambda t: tx(spell_float(ty, t, "lit", [], "b"))) if flt else (lambda v: tx(lit_int(v)))
+        for kind in LOWER + UPPER:
+            comps = UPPER if kind in LOWER else LOWER
+            for ck in comps:
+                far = far_hi if kind in LOWER else far_lo
+                if not flt and ck in ("greater", "less") and far in (0, 250) and ty == "u8":
+                    far = 1 if kind in UPPER else 250
+                subj = [tid(kind), EQ, mk(bsub)]
+                comp = [tid(ck), EQ, mk(far)]
+                for first in (True, False):
+                    d = Decl("mc%d" % n, ty, attr([block("validate", [subj, comp] if first else [comp, subj]), derive_block(["Debug", "FromStr"])]),
+                             name=["T", "Level"][n % 2], tags={"msg", "float" if flt else "int"})
+                    d.bounds = [fbits(bsub, FLOAT_TYPES[ty])] if flt else [bsub]
+                    d.vkind = kind
+                    d.companion = True
+                    d.default_arg = None
+                    decls.append(d)
+                    n += 1
+    n = len([d_ for d_ in decls if d_.id.startswith("ms")])
     # the sentence of one length rule next to a lax companion rule (never binding at the probes)
     for kind, comp in (("len_char_min", [tid("len_char_max"), EQ, tx(lit("40"))]), ("len_char_max", [tid("len_char_min"), EQ, tx(lit("0"))]),
                        ("len_char_min", [tid("not_empty")]), ("len_char_max", [tid("not_empty")])):
